@@ -75,7 +75,8 @@ def invalid_update(rng):
         t = random_table(rng, nkeys=rng.randint(1, 5), q=rng.choice([1, 3, 5, 8]))
         items = list(t.items())
         rng.shuffle(items)
-        bad = rng.choice([("C", -1), ("O", 1.5), ("Xx", 2), ("N+", 3), ("S", None), ("C+0", 1), ("P", "3"), ("c", 2)])
+        bad = rng.choice([("C", -1), ("O", 1.5), ("Xx", 2), ("N+", 3), ("S", None), ("C+0", 1), ("P", "3"), ("c", 2),
+                          ("N+1\n", 3), ("S\n", 2), (" O", 2), ("Fe+2 ", 2)])
         items = [kv for kv in items if kv[0] != bad[0]]     # the bad entry must not be overridden by a valid twin
         items.insert(rng.randint(min(1, len(items)), len(items)), bad)
         d = dict(items)
@@ -104,4 +105,11 @@ def invalid_update(rng):
         ({"?": 4, "N": None}, "non-integer"),
         ("Default", "unknown preset"),
         ({"?": 4, "C-": 3}, "bad key"),
+        ({"?": 4, "N+1\n": 3}, "bad key (trailing newline)"),
+        ({"?": 4, "Cl\n": 1}, "bad key (trailing newline)"),
+        ({"?": 4, " C": 3}, "bad key (whitespace)"),
+        ({"?": 4, "C ": 3}, "bad key (whitespace)"),
+        ({"?": 4, "O-1\t": 1}, "bad key (whitespace)"),
+        ({"?\n": 4, "?": 4}, "bad key (trailing newline)"),
+        ({"?": 4, "C+1\r": 3}, "bad key (whitespace)"),
     ])
